@@ -2019,8 +2019,8 @@ class Emitter:
             return "\x02RET(%s)\x02" % val
         self.ctl = Ctl(finish)
         body = self.expr(fn.body, env, lambda t, ty, envx: finish(envx, t, ty))
-        total = not force_monadic and ("<-" not in body and "None" not in self._strip_ret(body))
         import re
+        total = not force_monadic and ("<-" not in body and not re.search(r"(?<![A-Za-z0-9_])None(?![A-Za-z0-9_])", self._strip_ret(body)))
         if total:
             body = re.sub(r"\x02RET\((.*?)\)\x02", lambda m: m.group(1), body, flags=re.S)
         else:
